@@ -418,6 +418,23 @@ def family_ctxfilt(cat):
                                                 lookup([inner]), lookup([single({4: 2, 5: 2})])])
 
 
+def family_ctxtrail(cat):
+    """rewrites in the region of ignored glyphs that trail an outer match (the outer lookup ignores marks, its
+    match is extended over the marks behind its last input glyph, testcases 2_08): a nested lookup without
+    flags merges, deletes or multiplies those marks; the end of the outer match has to follow, the next action
+    of the outer rule runs up to the new end (not beyond it, not beyond the end of the text)"""
+    inners = [lig({4: [([4], 5), ([5], 4)]}), multi({4: [4, 4], 5: [4, 5, 4]}), lig({4: [([4, 4], 5)], 5: [([4], 5)]})]
+    lasts = [lig({1: [([5, 2], 3), ([4, 2], 3), ([5], 6), ([4], 6)]}), single({1: 2, 4: 1, 5: 1})]
+    for of, cf in ((1, 1), (2, 2), (3, 3), (1, 3), (3, 1)):
+        for pat in ([{1}, {4}, {4}], [{1}, {4}, {5}]):
+            for inner in inners:
+                for last in lasts:
+                    for cacts in ([(1, 3)], [(2, 3), (1, 3)]):
+                        cat.add("ctxtrail", [lookup([ctx([rule([{1}], [(0, 2), (0, 4)])], fmt=of)], flags=["mark"]),
+                                             lookup([ctx([rule(pat, cacts)], fmt=cf)]),
+                                             lookup([inner]), lookup([last])])
+
+
 def family_bigid(cat):
     """glyph ids over the whole 16-bit range: GSUB 1.1 adds its delta modulo 65536; coverage and class
     lookups are by id, not by small index"""
@@ -495,6 +512,13 @@ def family_chain(cat):
         cat.add("rev", [lookup([rev({1: 6, 2: 3}, back=[{1, 2}], ahead=[])], **fl)])
         cat.add("rev", [lookup([rev({1: 6}, back=[], ahead=[{2}, {1}])], **fl)])
         cat.add("rev", [lookup([rev({1: 2}, back=[{2}], ahead=[])], **fl)])     # order-sensitive: undefined
+    # reverse chaining under every filter, with context sets that name glyphs the filter ignores (they can
+    # never be matched, wherever they stand: first glyph of the text, last glyph, between context glyphs)
+    for fl in FLAGSETS[:10]:
+        cat.add("rev", [lookup([rev({1: 6, 2: 3}, back=[{1, 2, 4}], ahead=[])], **fl)])
+        cat.add("rev", [lookup([rev({1: 6}, back=[{1, 4}, {2, 4}], ahead=[{1, 2, 4, 5}])], **fl)])
+        cat.add("rev", [lookup([rev({1: 6, 4: 3}, back=[{4, 5, 1}], ahead=[{4, 2}])], **fl)])
+        cat.add("rev", [lookup([rev({2: 6}, back=[], ahead=[{1, 4}, {1, 4}])], **fl)])
 
 
 def family_gpos(cat):
@@ -617,6 +641,7 @@ FAMILIES = {
     "simple": family_simple, "lig": family_lig, "order": family_order, "ctx": family_ctx,
     "chain": family_chain, "gpos": family_gpos, "malformed": family_malformed, "ctxnest": family_ctxnest, "ctxskip": family_ctxskip,
     "curs": family_curs, "ctxfilt": family_ctxfilt, "bigid": family_bigid,
+    "ctxtrail": family_ctxtrail,
 }
 
 
